@@ -94,7 +94,7 @@ func (w *World) registerIntrinsics() {
 		at := m.ctx.NewVar(name, sym.SReal, ratOfFloat(lo), ratOfFloat(hi))
 		m.nondets = append(m.nondets, NondetRec{Name: name, Kind: "real", Atom: at})
 		m.res.Approx = true // a real need not be a float64
-		return &FSym{L: m.ctx.FromAtom(at), Exact: false}
+		return m.exactF(m.ctx.FromAtom(at))
 	}
 	// vFloatInt: a float64 that holds an integer value in [lo,hi] (|.|<=2^53): exact.
 	h["vFloatInt"] = func(m *Machine, fn *ssa.Function, a []Value) Value {
@@ -102,7 +102,7 @@ func (w *World) registerIntrinsics() {
 		lo, hi := concI(m, a[1]), concI(m, a[2])
 		at := m.ctx.NewVar(name, sym.SInt, sym.R(lo), sym.R(hi))
 		m.nondets = append(m.nondets, NondetRec{Name: name, Kind: "int", Atom: at})
-		return &FSym{L: m.ctx.ToReal(m.ctx.FromAtom(at)), Exact: true}
+		return m.exactF(m.ctx.FromAtom(at))
 	}
 	h["vAssume"] = func(m *Machine, fn *ssa.Function, a []Value) Value {
 		switch c := a[0].(type) {
@@ -118,6 +118,17 @@ func (w *World) registerIntrinsics() {
 					m.abort(PathInfeasible, "assume made PC unsat")
 				}
 			}
+		}
+		return nil
+	}
+	// vKnown(key, cond): cond describes the input class of a known finding.
+	// With the finding excused (Config.Excuse[key]) it is assumed away;
+	// otherwise it is a no-op.
+	h["vKnown"] = func(m *Machine, fn *ssa.Function, a []Value) Value {
+		key := concStr(m, a[0])
+		m.res.KnownKeys = appendUnique(m.res.KnownKeys, key)
+		if m.cfg.Excuse[key] {
+			return h["vAssume"](m, fn, []Value{m.boolVal(m.ctx.Not(m.boolTerm(a[1])))})
 		}
 		return nil
 	}
@@ -185,7 +196,7 @@ func (w *World) registerIntrinsics() {
 		name := concStr(m, a[0])
 		r := m.ctx.UF(name, sym.SReal, new(big.Rat), nil, m.lin(a[1], k), m.lin(a[2], k), m.lin(a[3], k))
 		m.res.Approx = true
-		return &FSym{L: r}
+		return m.exactF(r)
 	}
 
 	x := map[string]intrinsic{}
@@ -205,11 +216,11 @@ func (w *World) registerIntrinsics() {
 		}
 	}
 	f1("Abs", math.Abs, func(m *Machine, f *FSym) Value {
-		return &FSym{L: m.ctx.Abs(f.L), Exact: f.Exact}
+		return m.fabs(f)
 	})
 	rnd := func(kind sym.AtomKind) func(m *Machine, f *FSym) Value {
 		return func(m *Machine, f *FSym) Value {
-			return m.fval(m.ctx.ToReal(m.ctx.Round(kind, f.L)), f.Exact)
+			return m.fval(m.ctx.ToReal(m.ctx.Round(kind, m.val(f))), f.Exact)
 		}
 	}
 	f1("Floor", math.Floor, rnd(sym.AFloor))
@@ -241,8 +252,9 @@ func (w *World) registerIntrinsics() {
 			i, f := math.Modf(v)
 			return TupleV{i, f}
 		case *FSym:
-			ip := m.ctx.ToReal(m.ctx.Round(sym.ATrunc, v.L))
-			return TupleV{m.fval(ip, v.Exact), m.fval(m.ctx.Sub(v.L, ip), v.Exact)}
+			vl := m.val(v)
+			ip := m.ctx.ToReal(m.ctx.Round(sym.ATrunc, vl))
+			return TupleV{m.fval(ip, v.Exact), m.fval(m.ctx.Sub(vl, ip), v.Exact)}
 		}
 		panic("Modf")
 	}
